@@ -129,17 +129,147 @@ def class_decls(cls) -> list[dict]:
     return out
 
 
+# ---------------------------------------------------------------------------------------------------------------
+# behavioural extraction: the same facts read from what the generated methods DO, not from how xmlchemy stores them.
+# Used whenever closure introspection does not account for every generated-method family of a class (a refactoring of
+# xmlchemy's internals - renamed private attributes, closures turned into partials or helper classes - must not break
+# the check: the method NAMES `_insert_x`, `_add_x`, `get_or_add_x`, ... are the interface the rest of the library calls).
+
+def _nsptag(el) -> str:
+    from lxml import etree
+    from pptx.oxml.ns import _nsmap
+    q = etree.QName(el)
+    for pfx, uri in _nsmap.items():
+        if uri == q.namespace:
+            return "%s:%s" % (pfx, q.localname)
+    return "?:%s" % q.localname
+
+
+def _fresh(tag: str):
+    from pptx.oxml.xmlchemy import OxmlElement
+    return OxmlElement(tag)
+
+
+def props_by_name(cls) -> list[str]:
+    """Every x for which the class has an `_insert_x` method (each child declaration but OneAndOnlyOne generates one)."""
+    return sorted(n[len("_insert_"):] for n in dir(cls) if n.startswith("_insert_") and callable(getattr(cls, n, None)))
+
+
+def behavioural_child(tag: str, prop: str):
+    """The tag of the child that `_new_<prop>()` / `_add_<prop>()` creates on a fresh parent, or None."""
+    parent = _fresh(tag)
+    for nm in ("_new_" + prop, "_add_" + prop):
+        f = getattr(parent, nm, None)
+        if f is None:
+            continue
+        try:
+            el = f()
+        except Exception:
+            continue
+        if el is not None and hasattr(el, "tag"):
+            return _nsptag(el)
+    return None
+
+
+def behavioural_successors(tag: str, prop: str, candidates: list[str]) -> list[str]:
+    """The candidate sibling tags that `_insert_<prop>` places the new child BEFORE (one sibling at a time)."""
+    out = []
+    for s in candidates:
+        parent = _fresh(tag)
+        try:
+            sib = _fresh(s)
+            parent.append(sib)
+            child = getattr(parent, "_new_" + prop)()
+            getattr(parent, "_insert_" + prop)(child)
+        except Exception:
+            continue
+        kids = list(parent)
+        if child in kids and sib in kids and kids.index(child) < kids.index(sib):
+            out.append(s)
+    return out
+
+
+def class_decls_behavioural(cls, tag: str) -> list[dict]:
+    out = []
+    props = props_by_name(cls)
+    child_of = {p: behavioural_child(tag, p) for p in props}
+    choices = [p for p in props if hasattr(cls, "get_or_change_to_" + p) and child_of[p]]
+    group_of: dict[str, list[str]] = {}
+    for x in choices:                       # y is in x's group iff changing to x removes a y that was there
+        grp = [x]
+        for y in choices:
+            if y == x:
+                continue
+            parent = _fresh(tag)
+            try:
+                getattr(parent, "get_or_change_to_" + y)()
+                getattr(parent, "get_or_change_to_" + x)()
+            except Exception:
+                continue
+            if not any(_nsptag(k) == child_of[y] for k in parent):
+                grp.append(y)
+        group_of[x] = [child_of[g] for g in sorted(grp, key=choices.index)]
+    for prop in props:
+        child = child_of[prop]
+        if child is None:
+            continue
+        if prop in choices:
+            kind = "Choice"
+        elif hasattr(cls, "get_or_add_" + prop):
+            kind = "ZeroOrOne"
+        elif hasattr(cls, "add_" + prop):
+            kind = "OneOrMore"
+        else:
+            kind = "ZeroOrMore"
+        names = {"insert": "_insert_" + prop, "add": "_add_" + prop, "new": "_new_" + prop}
+        if kind == "ZeroOrOne":
+            names["get_or_add"] = "get_or_add_" + prop
+            names["remove"] = "_remove_" + prop
+        if kind == "OneOrMore":
+            names["public_add"] = "add_" + prop
+        if kind == "Choice":
+            names["change_to"] = "get_or_change_to_" + prop
+        methods = {}
+        for role, nm in names.items():
+            if hasattr(cls, nm):
+                owner = next((k.__name__ for k in cls.__mro__ if nm in k.__dict__), "?")
+                methods[role] = {"name": nm, "generated": True, "foreign_decl": False, "defined_in": owner}
+        out.append({"prop": prop, "kind": kind, "child": child, "successors": None,      # None: filled per XSD type by the caller
+                    "group": None, "group_members": group_of.get(prop, []), "methods": methods, "behavioural": True})
+    out.sort(key=lambda r: (r["child"], r["prop"]))
+    return out
+
+
+def decls_for(cls, tag: str) -> tuple[list[dict], str]:
+    """(declarations, how): closure introspection when it accounts for every `_insert_x` family of the class, else behaviour."""
+    try:
+        d = class_decls(cls)
+        have = {x["prop"] for x in d}
+        if all(p in have for p in props_by_name(cls) if behavioural_child(tag, p) is not None or p in have):
+            return d, "closures"
+        missing = [p for p in props_by_name(cls) if p not in have and behavioural_child(tag, p) is not None]
+        if not missing:
+            return d, "closures"
+    except Exception:
+        pass
+    return class_decls_behavioural(cls, tag), "behaviour"
+
+
 def extract() -> dict:
     reg = registry()
     elements = []
+    how = {}
     for tag, cls in reg:
-        elements.append({"tag": tag, "cls": cls.__name__, "module": cls.__module__, "decls": class_decls(cls)})
+        decls, h = decls_for(cls, tag)
+        how[h] = how.get(h, 0) + 1
+        elements.append({"tag": tag, "cls": cls.__name__, "module": cls.__module__, "decls": decls, "how": h})
     return {
         "elements": elements,
         "n_tags": len(reg),
         "n_classes": len({c for _, c in reg}),
         "n_decls": sum(len(e["decls"]) for e in elements),
         "n_class_decls": len({(e["cls"], d["prop"]) for e in elements for d in e["decls"]}),
+        "extraction": how,
     }
 
 
